@@ -76,7 +76,7 @@ struct Outcome {
 
 fn describe(seq: &[HOp]) -> Value {
     let initial = CUR_INITIAL.with(|c| c.get());
-    json!({"engine":"E3","object":"harper-ls dictionaries","user_dictionary_file_before_start": INITIAL_FILES[initial].0, "history": seq.iter().map(|o| format!("{o:?}")).collect::<Vec<_>>()})
+    json!({"engine":"E3","object":"harper-ls dictionaries","user_dictionary_file_before_start": if initial < INITIAL_FILES.len() { INITIAL_FILES[initial].0.to_string() } else { format!("700 multi-byte words, first word shifted by {}", initial - INITIAL_FILES.len()) }, "history": seq.iter().map(|o| format!("{o:?}")).collect::<Vec<_>>()})
 }
 
 thread_local! {
@@ -86,6 +86,24 @@ thread_local! {
 /// A user dictionary file that exists before the server starts ("a dictionary file on disk"):
 /// absent, one word, the same without a final newline, two words with CRLF line ends.
 pub const INITIAL_FILES: &[(&str, &[&str])] = &[("", &[]), ("thw\n", &["thw"]), ("thw", &["thw"]), ("thw\r\nnaïvité\r\n", &["thw", "naïvité"])];
+
+/// Variants 0..3 are the small files above; 4..6 are a long add history: 700 words full of
+/// multi-byte letters (more than one read buffer), behind a first word whose length shifts every
+/// later byte by 0, 1 or 2 so that buffer boundaries fall inside characters.
+pub const N_INITIAL: usize = 7;
+
+fn initial_file(i: usize) -> (String, Vec<String>) {
+    if i < INITIAL_FILES.len() {
+        let (b, w) = INITIAL_FILES[i];
+        return (b.to_string(), w.iter().map(|x| x.to_string()).collect());
+    }
+    let shift = i - INITIAL_FILES.len();
+    let mut words: Vec<String> = vec![format!("q{}z", "x".repeat(shift))];
+    for k in 0..700 {
+        words.push(format!("zé{}ñ世{}", ["a", "b", "c", "d", "e", "f", "g"][k % 7].repeat(1 + k % 5), k));
+    }
+    (words.iter().map(|w| format!("{w}\n")).collect::<String>(), words)
+}
 
 fn run_history(seq: &[HOp], crash: bool) -> Result<Outcome, String> {
     run_history_from(seq, crash, 0)
@@ -98,12 +116,13 @@ fn run_history_from(seq: &[HOp], crash: bool, initial: usize) -> Result<Outcome,
     let scratch = sess.world.root.join("recovered.txt");
     let mut asis_user: BTreeSet<String> = BTreeSet::new();
     if initial > 0 {
-        let (bytes, words) = INITIAL_FILES[initial];
+        let (bytes, words) = initial_file(initial);
+        let (bytes, words): (&str, Vec<&str>) = (&bytes, words.iter().map(|w| w.as_str()).collect());
         if let Some(dir) = sess.world.user_dict.parent() {
             std::fs::create_dir_all(dir).map_err(|e| e.to_string())?;
         }
         std::fs::write(&sess.world.user_dict, bytes).map_err(|e| e.to_string())?;
-        for w in words {
+        for w in &words {
             sess.client.user_words.insert(w.to_string());
             asis_user.insert(w.to_string());
         }
@@ -368,7 +387,7 @@ pub fn replay(case: &Value) -> Vec<(String, Value)> {
     let seq: Option<Vec<HOp>> = hist.iter().map(|h| h.as_str().and_then(parse_hop)).collect();
     let Some(seq) = seq else { return vec![("bad-replay-file: unknown operation".into(), json!({}))] };
     let ends_in_add = matches!(seq.last(), Some(HOp::AddUser(..)) | Some(HOp::AddFile(..)));
-    let initial = case["user_dictionary_file_before_start"].as_str().and_then(|b| INITIAL_FILES.iter().position(|(x, _)| *x == b)).unwrap_or(0);
+    let initial = case["user_dictionary_file_before_start"].as_str().and_then(|b| INITIAL_FILES.iter().position(|(x, _)| *x == b).or_else(|| b.strip_prefix("700 multi-byte words, first word shifted by ").and_then(|n| n.parse::<usize>().ok()).map(|n| INITIAL_FILES.len() + n))).unwrap_or(0);
     match catch(|| run_history_from(&seq, ends_in_add, initial)) {
         Ok(Ok(o)) if !o.applicable => vec![("history-not-applicable".into(), json!({}))],
         Ok(Ok(o)) => o.viols.into_iter().map(|v| (v.sig, v.detail)).collect(),
@@ -485,7 +504,8 @@ pub fn run(tier: Tier) -> i32 {
             let seq: Vec<HOp> = seqs[i as usize].iter().map(|k| ops[*k].clone()).collect();
             let ends_in_add = matches!(seq.last(), Some(HOp::AddUser(..)) | Some(HOp::AddFile(..)));
             // a pre-existing dictionary file: every variant for the shorter histories
-            let initials: Vec<usize> = if seq.len() < depth { (0..INITIAL_FILES.len()).collect() } else { vec![0] };
+            // (the long files only for histories of one or two messages)
+            let initials: Vec<usize> = if seq.len() < depth { (0..if seq.len() <= 2 { N_INITIAL } else { INITIAL_FILES.len() }).collect() } else { vec![0] };
             for initial in initials {
             match catch(|| run_history_from(&seq, ends_in_add, initial)) {
                 Ok(Ok(o)) => {
